@@ -315,8 +315,9 @@ pub(crate) fn run_c07(_replay: Option<&str>) -> Report {
                 // the loser: NOTIFICATION 6/7, then end of stream
                 let mut got_cease = false;
                 let mut closed = false;
-                for _ in 0..4 {
-                    match tokio::time::timeout(Duration::from_secs(3), lose.read_msg()).await {
+                let t_lose = std::time::Instant::now();
+                while t_lose.elapsed() < Duration::from_millis(2500) {
+                    match tokio::time::timeout(Duration::from_millis(2500).saturating_sub(t_lose.elapsed()), lose.read_msg()).await {
                         Ok(Ok(Some(bgp::ParsedMessage::Notification(n)))) => {
                             if n.notification_code() == 6 && n.notification_subcode() == 7 {
                                 got_cease = true;
@@ -337,7 +338,7 @@ pub(crate) fn run_c07(_replay: Option<&str>) -> Report {
                     vs.push("loser-no-cease: the connection that loses the collision was not sent Cease / connection collision resolution".into());
                 }
                 if !closed {
-                    vs.push("loser-not-closed: the connection that loses the collision is still open 3 s later".into());
+                    vs.push("loser-not-closed: the connection that loses the collision is still open 2.5 s later".into());
                 }
                 // the survivor: its KEEPALIVE (if it was the second to get our OPEN), then Established on our KEEPALIVE
                 if !win_is_first {
@@ -359,8 +360,17 @@ pub(crate) fn run_c07(_replay: Option<&str>) -> Report {
                         }
                     }
                 }
-                win.wait_end(true).await;
-                lose.wait_end(true).await;
+                // verdicts are in: end both tasks without further waiting
+                for c in [&mut win, &mut lose] {
+                    c.stream = None;
+                    if let Some(j) = c.join.take() {
+                        if vs.is_empty() {
+                            let _ = tokio::time::timeout(WAIT, j).await;
+                        } else {
+                            j.abort();
+                        }
+                    }
+                }
                 Ok(vs)
             });
             rep.evaluations += 1;
